@@ -6,7 +6,7 @@
 //! The table below is written with macros that mirror the library's macro families
 //! (forward_*_binop_to_repr, impl_binop_assign_by_taking, impl_*_with_primitive, float/rational
 //! helper_macros).
-use dashu_base::{Abs, DivEuclid, DivRem, DivRemAssign, DivRemEuclid, ExtendedGcd, Gcd, Inverse, RemEuclid, UnsignedAbs};
+use dashu_base::{Abs, DivEuclid, DivRem, DivRemAssign, DivRemEuclid, ExtendedGcd, Gcd, Inverse, RemEuclid, SquareRoot, UnsignedAbs};
 use dashu_float::round::Round;
 use dashu_int::fast_div::ConstDivisor;
 use dashu_int::modular::Reduced;
@@ -756,14 +756,29 @@ fn ratio_unary(kind: &str, a: &[&str]) -> Vec<String> {
 fn reduced(a: &[&str]) -> Vec<String> {
     let mut out = Vec::new();
     let ring = ConstDivisor::new(ubig(a[1]));
+    let ring2 = ConstDivisor::new(ubig(a[1]));
     let x = || ring.reduce(ibig(a[2]));
+    if a[0] == "sqr" {
+        out.push(form("m", || x().sqr().show()));
+        out.push(form("mul_vv", || (x() * x()).show()));
+        out.push(form("mul_rr", || (&x() * &x()).show()));
+        return out;
+    }
+    if a[0] == "dbl" {
+        out.push(form("m", || x().dbl().show()));
+        out.push(form("add_vv", || (x() + x()).show()));
+        out.push(form("add_rr", || (&x() + &x()).show()));
+        return out;
+    }
     if a[0] == "neg" {
         out.push(form("v", || (-x()).show()));
         out.push(form("r", || (-&x()).show()));
         return out;
     }
-    let y = || ring.reduce(ibig(a[3]));
-    match a[0] {
+    // ops prefixed with x: the right operand lives in a second ring with the same modulus
+    let other = a[0].starts_with('x');
+    let y = || if other { ring2.reduce(ibig(a[3])) } else { ring.reduce(ibig(a[3])) };
+    match a[0].trim_start_matches('x') {
         "add" => { own4!(out, x, y, +); asg2!(out, x, y, +=); }
         "sub" => { own4!(out, x, y, -); asg2!(out, x, y, -=); }
         "mul" => { own4!(out, x, y, *); asg2!(out, x, y, *=); }
@@ -930,6 +945,83 @@ fn clone_reduced(a: &[&str]) -> Vec<String> {
     out
 }
 
+
+// ------------------------------------------------------------------------------------------------
+// Sum / Product over owned and borrowed items next to the explicit folds
+// ------------------------------------------------------------------------------------------------
+macro_rules! fold_forms {
+    ($out:expr, $op:expr, $items:ident, $t:ty) => {{
+        if $op == "sum" {
+            $out.push(form("owned", || $items().into_iter().sum::<$t>().show()));
+            $out.push(form("refs", || $items().iter().sum::<$t>().show()));
+            $out.push(form("fold_v", || $items().into_iter().fold(<$t>::ZERO, |acc, x| acc + x).show()));
+            $out.push(form("fold_r", || { let v = $items(); let mut acc = <$t>::ZERO; for x in v.iter() { acc += x; } acc.show() }));
+        } else {
+            $out.push(form("owned", || $items().into_iter().product::<$t>().show()));
+            $out.push(form("refs", || $items().iter().product::<$t>().show()));
+            $out.push(form("fold_v", || $items().into_iter().fold(<$t>::ONE, |acc, x| acc * x).show()));
+            $out.push(form("fold_r", || { let v = $items(); let mut acc = <$t>::ONE; for x in v.iter() { acc *= x; } acc.show() }));
+        }
+    }};
+}
+
+/// `it <sum|prod> <u|i|q|x> items...` (integers: one token per item, rationals: two)
+fn iter_fold(a: &[&str]) -> Vec<String> {
+    let mut out = Vec::new();
+    let op = a[0];
+    match a[1] {
+        "u" => { let items = || -> Vec<UBig> { a[2..].iter().map(|c| ubig(c)).collect() }; fold_forms!(out, op, items, UBig) }
+        "i" => { let items = || -> Vec<IBig> { a[2..].iter().map(|c| ibig(c)).collect() }; fold_forms!(out, op, items, IBig) }
+        "q" => { let items = || -> Vec<RBig> { a[2..].chunks(2).map(|c| rbig(c[0], c[1])).collect() }; fold_forms!(out, op, items, RBig) }
+        "x" => { let items = || -> Vec<Relaxed> { a[2..].chunks(2).map(|c| relaxed(c[0], c[1])).collect() }; fold_forms!(out, op, items, Relaxed) }
+        other => out.push(format!("unknown-kind={}", other)),
+    }
+    out
+}
+
+/// `itf <sum|prod> <base> <mode> (p s e)...`
+fn iter_fold_float<R: Round, const B: Word>(op: &str, a: &[&str]) -> Vec<String> {
+    let mut out = Vec::new();
+    let items = || -> Vec<FBig<R, B>> { a.chunks(3).map(|c| fmake::<R, B>(c[0], c[1], c[2])).collect() };
+    fold_forms!(out, op, items, FBig<R, B>);
+    out
+}
+
+/// `fm <op> <base> <mode> <p> <s> <e> [n]` : FBig method next to the Context method at the same precision
+fn float_method<R: Round, const B: Word>(op: &str, a: &[&str]) -> Vec<String> {
+    let mut out = Vec::new();
+    let x = || fmake::<R, B>(a[0], a[1], a[2]);
+    match op {
+        "sqrt" => {
+            out.push(form("m", || x().sqrt().show()));
+            out.push(form("ctx", || x().context().sqrt(x().repr()).value().show()));
+        }
+        "exp" => {
+            out.push(form("m", || x().exp().show()));
+            out.push(form("ctx", || x().context().exp(x().repr()).value().show()));
+        }
+        "exp_m1" => {
+            out.push(form("m", || x().exp_m1().show()));
+            out.push(form("ctx", || x().context().exp_m1(x().repr()).value().show()));
+        }
+        "ln" => {
+            out.push(form("m", || x().ln().show()));
+            out.push(form("ctx", || x().context().ln(x().repr()).value().show()));
+        }
+        "ln_1p" => {
+            out.push(form("m", || x().ln_1p().show()));
+            out.push(form("ctx", || x().context().ln_1p(x().repr()).value().show()));
+        }
+        "powi" => {
+            let n = || ibig(a[3]);
+            out.push(form("m", || x().powi(n()).show()));
+            out.push(form("ctx", || x().context().powi(x().repr(), n()).value().show()));
+        }
+        _ => out.push(format!("unknown-op={}", op)),
+    }
+    out
+}
+
 fn run(op: &str, a: &[&str]) -> String {
     let forms: Vec<String> = match op {
         "uu" | "ii" | "ui" | "iu" => int_int(op, a),
@@ -945,6 +1037,9 @@ fn run(op: &str, a: &[&str]) -> String {
         "qi" | "xi" => ratio_int(op, a),
         "qu" | "xu" => ratio_unary(op, a),
         "m" => reduced(a),
+        "it" => iter_fold(a),
+        "itf" => float_dispatch!(iter_fold_float, a[1], a[2], a[0], &a[3..]),
+        "fm" => float_dispatch!(float_method, a[1], a[2], a[0], &a[3..]),
         "clone" => clone_int(a),
         "clonef" => float_dispatch!(clone_float, a[0], a[1], "clone", &a[2..]),
         "cloneq" => clone_ratio(a),
